@@ -694,6 +694,48 @@ class SymInt(_SymBase):
     def __pos__(s):
         return s
 
+    # bit operations: exact for a concrete shift count / a concrete mask of the form 2^c - 1; anything else is concretised
+    def __rshift__(s, o):
+        c = concrete_int(o)
+        if c < 0:
+            raise ValueError("negative shift count")
+        return s._w(s.e / (2 ** c), o)
+
+    def __lshift__(s, o):
+        c = concrete_int(o)
+        if c < 0:
+            raise ValueError("negative shift count")
+        return s._w(s.e * (2 ** c), o)
+
+    def __rrshift__(s, o):
+        return _np_item(o) >> concrete_int(s)
+
+    def __rlshift__(s, o):
+        return _np_item(o) << concrete_int(s)
+
+    def __and__(s, o):
+        if isinstance(o, (SymInt, SymBool)):
+            return concrete_int(s) & concrete_int(o)
+        m = int(_np_item(o))
+        if m >= 0 and (m & (m + 1)) == 0:
+            return s._w(s.e % (m + 1), o)
+        return concrete_int(s) & m
+
+    __rand__ = __and__
+
+    def __or__(s, o):
+        return concrete_int(s) | concrete_int(o)
+
+    __ror__ = __or__
+
+    def __xor__(s, o):
+        return concrete_int(s) ^ concrete_int(o)
+
+    __rxor__ = __xor__
+
+    def __invert__(s):
+        return SymInt(-s.e - 1, s.np)
+
     def __abs__(s):
         return SymInt(z3.If(s.e >= 0, s.e, -s.e), s.np)
 
@@ -961,6 +1003,15 @@ class SymReal(_SymBase):
         e = z3.simplify(s.e)
         if z3.is_rational_value(e):
             return float(Fraction(e.numerator_as_long(), e.denominator_as_long()))
+        # log2 / ln of an integer-valued term: concretise the argument (forks over its feasible values)
+        if z3.is_app(e) and e.num_args() == 1 and e.decl().name() in ("log2", "ln"):
+            a = z3.simplify(e.arg(0))
+            if z3.is_app(a) and a.decl().kind() == z3.Z3_OP_TO_REAL:
+                import math
+                v = eng().concretize(a.arg(0))
+                if v <= 0:
+                    return float("-inf") if v == 0 else float("nan")
+                return math.log2(v) if e.decl().name() == "log2" else math.log(v)
         raise Inconclusive("symbolic real forced to float")
 
     def __repr__(s):
